@@ -3,6 +3,7 @@ replay them on the real code (pkverif cer replay), validate the recorded trace w
 (layer B explanation + layer A invariants at every event), and attribute violations to properties."""
 import json
 import os
+import time
 
 from lib import vlib
 
@@ -76,17 +77,23 @@ def cause_of(cfg, snap0, cer):
 
 def model_check(chk, cfgname, workers=8):
     cfg = "CerMC_%s.cfg" % cfgname
-    r = vlib.tlc("CerMC.tla", cfg, chk.work, workers=workers, coverage=True, timeout=3600, xmx="8g")
+    t0 = time.time()
+    # per-action coverage (the vacuity guard on actions) costs TLC ~40%: thorough tier only; the quick tier's guard is
+    # that every configuration exports behaviours and every replay yields events
+    cov = chk.tier == "thorough"
+    r = vlib.tlc("CerMC.tla", cfg, chk.work, workers=workers, coverage=cov, timeout=3600, xmx="8g")
     if r.invariant_violated:
         names = [ln for ln in r.out.splitlines() if ln.startswith('<<"VIOLATED"')]
         chk.violation({"inv": "model", "cfg": cfgname, "names": names[:1]},
                       "the specification itself (layer B, %s) admits a state violating %s - replay its counterexample on the code" % (cfg, names[:1]),
                       {"kind": "tlc-counterexample", "cfg": cfg, "out": r.out[-6000:]})
         return None
-    chk.model_run(cfg, r, expect_actions=["Begin", "StepCer", "Snap"])
+    chk.model_run(cfg, r, expect_actions=["Begin", "StepCer", "Snap"] if cov else ())
     plans = r.prints("REPLAY")
     if not plans:
         raise vlib.ToolError("no behaviours exported by " + cfg)
+    chk.cov.setdefault("phase_seconds", {}).setdefault("model_check", 0)
+    chk.cov["phase_seconds"]["model_check"] = round(chk.cov["phase_seconds"]["model_check"] + time.time() - t0, 1)
     return plans
 
 
@@ -98,11 +105,16 @@ def replay_and_validate(chk, behaviours, label, prefixes, seed=None, isolate=Fal
     args = ["cer", "replay", "--in", bpath, "--out", tpath, "--seed", chk.seed if seed is None else seed]
     if isolate:
         args += ["--isolate", "1"]
+    t0 = time.time()
     s = vlib.harness(args, timeout=3600)
+    t1 = time.time()
     if isolate:
         chk.cov["child_crashes"] = chk.cov.get("child_crashes", 0) + s.get("child_crashes", 0)
     r = vlib.tlc("CerTrace.tla", "CerTrace.cfg", w, env={"TRACE": tpath}, workers=1, timeout=3600, depth_first=True, xmx="6g")
     vlib.tlc_must_complete(r, "CerTrace on " + label)
+    ph = chk.cov.setdefault("phase_seconds", {})
+    ph["replay_on_code"] = round(ph.get("replay_on_code", 0) + t1 - t0, 1)
+    ph["trace_validation"] = round(ph.get("trace_validation", 0) + time.time() - t1, 1)
     res = r.prints("RESULT")
     if len(res) != 1 or "UNCONSUMED" in r.out:
         raise vlib.ToolError("CerTrace did not consume %s:\n%s" % (label, r.out[-2000:]))
@@ -159,7 +171,32 @@ def random_histories(chk, prefixes, quick_n=150, thorough_n=4000):
         return
     beh = histsim.behaviours(chk.seed, n)
     chk.cov["random_histories"] = chk.cov.get("random_histories", 0) + n
-    return replay_and_validate(chk, beh, "random-histories", prefixes, isolate=True)
+    res = replay_and_validate(chk, beh, "random-histories", prefixes, isolate=True)
+    # and histories drawn by TLC from the specification itself (spec/CerSim.tla), judged in the model as well
+    tlc_histories(chk, prefixes, 5 * n if chk.tier == "thorough" else 2 * n)
+    return res
+
+
+def tlc_histories(chk, prefixes, n, depth=400):
+    """specification -> implementation: random mixed histories generated by TLC itself (spec/CerSim.tla, -simulate):
+    every state is judged by the layer-A invariants in the model, every finished history is replayed on the code."""
+    t0 = time.time()
+    r = vlib.tlc("CerSim.tla", "CerSim.cfg", chk.work, workers=1, timeout=3600, simulate="num=%d" % n, seed=chk.seed, xmx="6g")
+    if r.invariant_violated:
+        names = [ln for ln in r.out.splitlines() if ln.startswith('<<"VIOLATED"')]
+        chk.violation({"inv": "model", "cfg": "CerSim", "names": names[:1]},
+                      "the specification itself (CerSim.tla, simulation) reaches a state violating %s" % names[:1],
+                      {"kind": "tlc-counterexample", "cfg": "CerSim.cfg", "out": r.out[-6000:]})
+        return None
+    plans = r.prints("REPLAY")
+    if len(plans) < n:
+        raise vlib.ToolError("CerSim exported %d of %d histories:\n%s" % (len(plans), n, r.out[-1500:]))
+    m = __import__("re").search(r"(\d+) states checked", r.out)
+    chk.cov["model_runs"].append({"cfg": "CerSim.cfg (simulate)", "traces": len(plans), "states_checked": int(m.group(1)) if m else 0})
+    chk.cov["states"] += int(m.group(1)) if m else 0
+    chk.cov["tlc_simulated_histories"] = chk.cov.get("tlc_simulated_histories", 0) + len(plans)
+    chk.cov.setdefault("phase_seconds", {})["simulation"] = round(time.time() - t0, 1)
+    return replay_and_validate(chk, expand(plans), "tlc-simulated-histories", prefixes, isolate=True)
 
 
 def finish_cov(chk, rule, exhaustive, note):
